@@ -2,6 +2,7 @@
 enumeration with follow-up operations on the parts, correspondence on contents, capacities and addresses)."""
 from lib import *
 from engines.coll import run_coll, finish_coll_obligation
+from engines.arena import run_arena, finish_arena_obligation
 
 MODULES = ["BumpProof.Props.C16"]
 
@@ -30,6 +31,12 @@ def run(ctx):
         ctx.notes.append("proof/correspondence broken: running the thorough-tier search for a failing input")
         for off in (1, 2, 3):
             run_coll(ctx, 2, 1, "split", oracle_props=["C16"], seed_offset=off, label=f"deep-search+{off}")
+    # "each part is afterwards independent": at arena level a split is two live blocks; deallocating / growing / shrinking one of
+    # them (also the FRONT part of a split while the block is the newest allocation, downwards, MIN_ALIGN > 1) must not let a later
+    # allocation overlap the other, nor change its bytes (oracles of the arena harness, tagged C01 / C02 there)
+    run_arena(ctx, 300 if q else 4000, 100, "general", fields=(0,), oracle_props=["C16", "C01", "C02"], seed_offset=160, label="parts-of-a-split-block(arena)")
+    run_arena(ctx, 200 if q else 3000, 100, "realloc", fields=(0,), oracle_props=["C16", "C01", "C02"], seed_offset=161, label="parts-of-a-split-block(realloc)")
+    finish_arena_obligation(ctx)
     finish_coll_obligation(ctx)
     return finish(ctx, "split_off / split_at / split_first / split_last / merge proved to partition exactly (contents, order, capacities, "
                        "disjoint adjacent buffers; merge = inverse, rejects non-adjacent order); model tied to the real types by the exhaustive "
